@@ -635,6 +635,10 @@ class RecipeGen:
                     ret = r.choice(["void", "uint64", "uint64", "string", "bool", "(uint64,uint8)", "uint8"])
             nm = (r.choice(NAMEPOOL) + str(k)) if self.f["names"] else f"f{k}"
             s = {"name": nm, "deco": deco, "ret": ret, "params": params, "body": [], "retexpr": None}
+            if not is_method and self.f["shared_fns"] and r.random() < 0.3:
+                # this program decorates a plain function of a shared helper module for itself
+                fn = r.choice(["one", "inc", "tmp", "add"])
+                s.update({"deco": "sub", "ret": "u", "params": [["expr", "u"]] * {"one": 0, "inc": 1, "tmp": 1, "add": 2}[fn], "shared_fn": fn})
             if not is_method and self.f["recursion"] and not any(p[0] == "ref" for p in params) and r.random() < 0.3:
                 if deco == "sub" or self.f["abi_recursion"]:
                     s["recursive"] = True
@@ -991,6 +995,7 @@ def _gen_features(r: random.Random) -> dict:
         "many_args": r.random() < 0.15,
         "ref_txn_args": r.random() < 0.4,
         "helpers": r.random() < 0.3,
+        "shared_fns": r.random() < 0.2,
         "nonce": r.random() < 0.1,
         "named_tuples": r.random() < 0.35,
         "globals": r.random() < 0.35,
@@ -1033,8 +1038,8 @@ def gen_opts(r: random.Random, spec: dict, *, native_fail=False, allow_sm=False)
         o["ac"] = True
     if r.random() < 0.15:
         o["via_compile"] = True
-    elif r.random() < 0.12 and spec["kind"] != "router":
-        o["reuse_comp"] = True
+    elif r.random() < 0.15 and spec["kind"] != "router":
+        o["reuse_comp"] = r.choice([True, "mutate", "mutate"])
     if allow_sm:
         o["sm"] = {"annotate": r.random() < 0.3, "pcs": r.random() < 0.4, "concise": r.random() < 0.5}
     return o
@@ -1180,8 +1185,8 @@ def gen_plan(seed: int, cfg: dict) -> dict:
     # churn: bulk allocation by "other code" in the process (absolute counter values, addresses)
     if r.random() < 0.35:
         for _ in range(r.randrange(1, 4)):
-            what = r.choice(["slots", "slots", "subs", "vars", "abi"])
-            n = r.choice([3, 17, 100, 300, 1000, 4000]) if what in ("slots", "vars") else r.choice([2, 9, 40, 120])
+            what = r.choice(["slots", "slots", "subs", "vars", "abi", "decls"])
+            n = r.choice([3, 17, 100, 300, 1000, 4000]) if what in ("slots", "vars") else (r.choice([20, 150, 300]) if what == "decls" else r.choice([2, 9, 40, 120]))
             merged.insert(r.randrange(0, len(merged) + 1), {"op": "churn", "what": what, "n": n})
 
     # unrelated test code in the process: the public comparison contexts, sometimes with a failure inside
